@@ -1,11 +1,16 @@
 (** C02 - Wire format: output is exactly the documented protobuf-like encoding;
     Unmarshal accepts the fields in any order.
     The model's encoder is compared byte for byte with the implementation on
-    every run (maps after putting entries in the wire order); the theorems
-    below state the documented format of the model's encoder for all codec
-    trees, and prove the any-order decoding for the round-trip fragment. *)
+    every run (maps after putting entries in the wire order).  C02_format:
+    the encoding of ANY struct (every codec constructor, both modes) is a
+    message of the documented format, given as an explicit grammar ([wmsg]:
+    tag varint = index << 3 | wire type; 0 varint, 1 eight bytes, 5 four bytes,
+    2 length-prefixed bytes, 3 count then length-prefixed items), and consists of
+    exactly the fields [simgw] lists, in declaration order, omitted fields
+    absent.  The other theorems spell the layouts out per codec and prove the
+    any-order decoding for the round-trip fragment. *)
 From Coq Require Import Permutation.
-From Plenc Require Import Base Varint Wire VarintProofs JsonAny Codec SizeProofs RoundTripBase RoundTrip FormatProofs.
+From Plenc Require Import Base Varint Wire VarintProofs JsonAny Codec SizeProofs RoundTripBase RoundTrip FormatProofs PbWf WireGrammar.
 Open Scope N_scope.
 
 Theorem C02_tag : forall c idx, (0 <= idx < 2305843009213693952)%Z ->
@@ -79,9 +84,36 @@ Theorem C02_decode_any_order_partial : forall nm n fs l vs prior,
 Proof. exact decode_any_order. Qed.
 Print Assumptions C02_decode_any_order_partial.
 
+(** the whole output, for every struct whose codecs are not cut off by the
+    model's unfolding limit: a well-formed message of the documented format
+    with exactly the expected fields *)
+Theorem C02_format : forall nm n fs v,
+  fmt_ok (CStruct nm n fs) = true -> Forall (fun f => idx_ok (f_index f)) fs ->
+  fits (CStruct nm n fs) v ->
+  wmsg (enc (CStruct nm n fs) v []) (simgw fs (struct_fields v)).
+Proof. exact struct_format. Qed.
+Print Assumptions C02_format.
+
+(** ... each field of it *)
+Theorem C02_field_format : forall c, fmt_ok c = true -> forall v idx, idx_ok idx -> fits c v ->
+  wmsg (enc c v (field_tag c idx)) (fimgw c v idx).
+Proof. exact field_format. Qed.
+Print Assumptions C02_field_format.
+
 (** the README's example struct: A int `1`, C float64 `2`, D string `3,intern` *)
 Example C02_readme :
   enc (CStruct [] 4 [mkfld 0 1 [65] (CInt 64); mkfld 2 2 [67] CF64; mkfld 3 3 [68] CString])
       (VStruct [VInt (-2); VSkip 7; VF64 4607182418800017408; VStr [104; 105]]) []
   = [8; 3;  17; 0;0;0;0;0;0;240;63;  26; 2; 104; 105].
 Proof. vm_compute. reflexivity. Qed.
+
+(** non-vacuity of C02_format: a struct with every wire type *)
+Example C02_format_ex :
+  let c := CStruct [] 5 [mkfld 0 1 [] (CInt 64); mkfld 1 2 [] CF64; mkfld 2 3 [] CF32; mkfld 3 4 [] CString;
+                         mkfld 4 5 [] (CMap CString (CSliceLen CString))] in
+  fmt_ok c = true /\
+  simgw (match c with CStruct _ _ fs => fs | _ => [] end)
+        [VInt (-1); VF64 0; VF32 1; VStr [104]; VMap (Some [(VStr [107], VSlice [VStr []; VStr [120]])])]
+  = [WF 1 (WVarint [1]); WF 3 (WFixed32 [1; 0; 0; 0]); WF 4 (WBytes [104]);
+     WF 5 (WItems [[10; 1; 107; 19; 2; 0; 1; 120]])].
+Proof. vm_compute. split; reflexivity. Qed.
